@@ -1,5 +1,124 @@
-From FJ Require Import Lib.Base Lib.Bytes Spec.ImageSpec Model.Fjm Proofs.FjmProps.
-Local Open Scope N_scope.
-Theorem C06_u64_codec : forall v, v < 2 ^ 64 -> le_dec (u64_enc v) = v.
+From FJ Require Import Lib.Base Lib.Bytes Spec.ImageSpec Model.Fjm Proofs.FjmCodec Proofs.FjmReader Proofs.FjmWriter Proofs.FjmProps.
+(* C06 - writing then reading an .fjm preserves the memory image in every version.  Statements only.
+   Model: Model/Fjm.v (exec = a sequence of add_data / add_segment calls on one Writer, write = write_to_file,
+   read_thr thr = Reader.__init__ with zero-tail threshold thr; read = read_thr 1000).
+   Spec: Spec/ImageSpec.v (lword, word_of, same_image, representable).
+   liblzma is the pair (compress, decompress) with the premise decompress (compress x) = x.
+   fits_u64: the pool and the table have fewer than 2^64 entries (their lengths are packed as u64). *)
+Local Open Scope Z_scope.
+
+(* Every call sequence the writer accepts, at every width / version / flags / threshold: if the file gets
+   written, reading it gives an image whose segments are the declared ones, whose word at every address inside a
+   segment is the supplied data then zeros, and every address outside all segments is invalid (lword = None);
+   the header fields come back, and the file's segment table is consistent. *)
+Theorem C06_roundtrip :
+  forall (compress : bytes -> option bytes) (decompress : bytes -> option bytes),
+    (forall x z, compress x = Some z -> decompress z = Some x) ->
+  forall c thr ops res st file,
+    cfg_valid c = true ->
+    exec c ops ws_empty = (res, Some st) -> fits_u64 st = true ->
+    write compress c st = WOk file ->
+    exists img L,
+      read_thr thr decompress file = ROk img /\
+      logical ops res [] = Some L /\
+      same_image (i_segs img) (i_mem img) (i_zeros img) L /\
+      i_w img = Z.to_N (c_w c) /\ i_ver img = Z.to_N (c_ver c) /\ i_flags img = Z.to_N (c_flags c) /\
+      consistent_table (i_pool_len img) (i_table img) = true.
+Proof. intros compress decompress H c thr ops res st file V. exact (roundtrip compress decompress H c V thr ops res st file). Qed.
+Print Assumptions C06_roundtrip.
+
+(* The image does not depend on the version (nor on flags / preset): two configurations that accept the same
+   calls of the same sequence load the same segments and the same word at every address. *)
+Theorem C06_version_independent :
+  forall (compress : bytes -> option bytes) (decompress : bytes -> option bytes),
+    (forall x z, compress x = Some z -> decompress z = Some x) ->
+  forall c1 c2 thr ops res st1 st2 f1 f2 i1 i2,
+    cfg_valid c1 = true -> cfg_valid c2 = true ->
+    exec c1 ops ws_empty = (res, Some st1) -> exec c2 ops ws_empty = (res, Some st2) ->
+    fits_u64 st1 = true -> fits_u64 st2 = true ->
+    write compress c1 st1 = WOk f1 -> write compress c2 st2 = WOk f2 ->
+    read_thr thr decompress f1 = ROk i1 -> read_thr thr decompress f2 = ROk i2 ->
+    i_segs i1 = i_segs i2 /\ forall a, word_of (i_mem i1) (i_zeros i1) a = word_of (i_mem i2) (i_zeros i2) a.
+Proof. exact version_independent. Qed.
+Print Assumptions C06_version_independent.
+
+(* Dense (explicit zeros, tail < threshold) and lazy (zero ranges) tails denote the same image: the answers do
+   not depend on the threshold. *)
+Theorem C06_zero_tail :
+  forall (compress : bytes -> option bytes) (decompress : bytes -> option bytes),
+    (forall x z, compress x = Some z -> decompress z = Some x) ->
+  forall c thr1 thr2 ops res st file i1 i2,
+    cfg_valid c = true -> exec c ops ws_empty = (res, Some st) -> fits_u64 st = true ->
+    write compress c st = WOk file ->
+    read_thr thr1 decompress file = ROk i1 -> read_thr thr2 decompress file = ROk i2 ->
+    i_segs i1 = i_segs i2 /\ forall a, word_of (i_mem i1) (i_zeros i1) a = word_of (i_mem i2) (i_zeros i2) a.
+Proof. exact zero_tail. Qed.
+Print Assumptions C06_zero_tail.
+
+(* The reader's re-basing of a jump word undoes the writer's, including wrap-around of the relative value:
+   rel_dec w k y = (y + k*w) & (2^w - 1)  applied to  (p - k*w) mod 2^w  gives p back. *)
+Theorem C06_relative_jump_cancel :
+  forall (w p : Z) (k : N), 0 <= w -> 0 <= p < 2 ^ w ->
+    rel_dec (Z.to_N w) k (Z.to_N ((p - Z.of_N k * w) mod 2 ^ w)) = Z.to_N p.
+Proof. exact rel_cancel. Qed.
+Print Assumptions C06_relative_jump_cancel.
+
+(* An input the format cannot represent is refused with the library's error: no call of any sequence ends in
+   another exception (exec returns a final state), and write_to_file does not either. *)
+Theorem C06_unrepresentable_rejected :
+  forall (compress : bytes -> option bytes) c ops,
+    cfg_valid c = true ->
+    snd (exec c ops ws_empty) <> None /\
+    forall res st, exec c ops ws_empty = (res, Some st) -> fits_u64 st = true ->
+                   forall e p, write compress c st <> WRaw e p.
+Proof. exact writer_total. Qed.
+Print Assumptions C06_unrepresentable_rejected.
+
+(* ... and what was accepted is representable: pairwise disjoint, even, non-empty segments below 2^64, an even
+   number of supplied words that fit the segment, every word below 2^w. *)
+Theorem C06_accepted_is_representable :
+  forall c ops res st,
+    cfg_valid c = true -> exec c ops ws_empty = (res, Some st) ->
+    exists L, logical ops res [] = Some L /\ representable (Z.to_N (c_w c)) L = true.
+Proof. exact accepted_representable. Qed.
+Print Assumptions C06_accepted_is_representable.
+
+(* byte codecs *)
+Theorem C06_u16_codec : forall v, (v < 2 ^ 16)%N -> le_dec (u16_enc v) = v.
+Proof. exact u16_roundtrip. Qed.
+Print Assumptions C06_u16_codec.
+Theorem C06_u32_codec : forall v, (v < 2 ^ 32)%N -> le_dec (u32_enc v) = v.
+Proof. exact u32_roundtrip. Qed.
+Print Assumptions C06_u32_codec.
+Theorem C06_u64_codec : forall v, (v < 2 ^ 64)%N -> le_dec (u64_enc v) = v.
 Proof. exact u64_roundtrip. Qed.
 Print Assumptions C06_u64_codec.
+Theorem C06_bytes_codec : forall b, all_bytes b = true -> le_enc (length b) (le_dec b) = b.
+Proof. exact le_enc_dec. Qed.
+Print Assumptions C06_bytes_codec.
+
+(* The hypotheses are satisfiable on a non-trivial input: w = 16, version 2, flags 5, two segments (one with a
+   lazy zero tail of 1000 words, one at word 2^40), identity codec; the calls are accepted, the state fits, the
+   file is written, and it reads back with the words supplied (closed boolean computation). *)
+Example C06_hypotheses_satisfiable :
+  let c := mkcfg 16 2 5 0 in
+  let ops := [AddData [1; 65535; 3; 40]; AddSeg 0 1004 0 4; AddData [7; 9]; AddSeg (2 ^ 40) 2 4 2] in
+  let is v (o : option N) := match o with Some x => (x =? v)%N | None => false end in
+  match exec c ops ws_empty with
+  | (_, Some st) =>
+    cfg_valid c && fits_u64 st &&
+    match write Some c st with
+    | WOk file =>
+      match read Some file with
+      | ROk img =>
+        pairs_eqb (i_segs img) [(0, 1004); (2 ^ 40, 2)]%N && pairs_eqb (i_zeros img) [(4, 1004)]%N &&
+        is 65535%N (word_of (i_mem img) (i_zeros img) 1) && is 9%N (word_of (i_mem img) (i_zeros img) (2 ^ 40 + 1)) &&
+        is 0%N (word_of (i_mem img) (i_zeros img) 1003) &&
+        match word_of (i_mem img) (i_zeros img) 1004 with None => true | Some _ => false end
+      | _ => false
+      end
+    | _ => false
+    end
+  | _ => false
+  end = true.
+Proof. vm_compute. reflexivity. Qed.
